@@ -21,7 +21,11 @@ def _impl():
 
 def _bytes_case():
     # z leading zeros + tail whose first byte is non-zero (or empty tail)
-    tail = st.one_of(st.just(b""), st.builds(lambda f, r: bytes([f]) + r, st.integers(1, 255), st.binary(max_size=127)))
+    def power(m, j, z):
+        v = m * 58 ** j
+        return v.to_bytes((v.bit_length() + 7) // 8, "big") + b"\x00" * z
+    tail = st.one_of(st.just(b""), st.builds(lambda f, r: bytes([f]) + r, st.integers(1, 255), st.binary(max_size=127)),
+                     st.builds(power, st.integers(1, 58 ** 3), st.integers(1, 12), st.integers(0, 3)))
     return st.fixed_dictionaries({"z": st.one_of(st.integers(0, 8), st.integers(0, 128)), "tail": tail})
 
 
@@ -67,6 +71,9 @@ def gen_string(tier):
         st.builds(lambda n, t: "1" * n + t, st.integers(1, 12), body),
         st.integers(1, 40).map(lambda n: "1" * n),
         st.sampled_from(list(ALPHA)),
+        # runs of '1' in the middle / at the end (zero digits inside the number)
+        st.builds(lambda a, n, b: a + "1" * n + b, st.text(alphabet=ALPHA[1:], min_size=1, max_size=12), st.integers(1, 16),
+                  st.text(alphabet=ALPHA, max_size=12)),
     )})
 
 
